@@ -2,6 +2,7 @@ SPECIFICATION Spec
 CONSTANTS
   Types = {"application/json", "text/plain", "application/xml"}
   NCallers = 2
+  RecyclesWrappers = FALSE
   OnceIsNilCheck = TRUE
 INVARIANTS InvOneClient
 CHECK_DEADLOCK FALSE
